@@ -308,6 +308,10 @@ var c18Fixed = []string{
 	"{% block b %}{% spaceless %}{% import 'lib' as zz6 %}{% endspaceless %}{% endblock %}",
 	"{% verbatim %}{% set a = 1 %}{% endverbatim %}{% spaceless %}{% from 'lib' import f as zz7 %}{% endspaceless %}",
 	"{% macro mm(q) %}{% set a = q %}{{ a }}{% endmacro %}{{ mm('inner') }}{{ _self.mm(n) }}{{ a }}",
+	// an import alias / imported name that is also a key of the caller's context (a map, a list, a scalar)
+	"{% import 'lib' as m %}{{ m.g(1) }}|{% import 'lib' as m2 %}{{ m2.g(2) }}|{% import 'lib' as xs %}{{ xs.g(3) }}|{% import 'lib' as a %}{{ a.g(4) }}",
+	"{% from 'lib' import g as m %}{{ m(1) }}|{% from 'lib' import f as xs, g as n %}{{ n(2) }}",
+	"{% for i in [1, 2] %}{% import 'lib' as m %}{{ m.g(i) }}{% endfor %}{{ m|length }}",
 	"{% set xs = xs|merge([4]) %}{% set xs = xs|sort %}{{ xs|join(',') }}",
 	"{% set m = m|merge({'a': 'over', 'new': 1}) %}{{ m.a }}{{ m.new }}",
 	"{% for a in xs %}{{ a }}{% endfor %}|{{ a }}",
